@@ -2208,6 +2208,224 @@ func embeddedModel(o *hx.Out) {
 	}
 }
 
+// ---------------------------------------------------------------- typeFields with type identities
+// Struct types built with reflect.StructOf from a shared pool: one struct type embedded through several parents (on
+// one level and on different levels), by value and by pointer, embedding depth >= 3 with >= 2 fields in the innermost
+// structs, names that clash across levels, on one level, tagged and untagged.  The table nbt.typeFields returns (the
+// cache bypassed) is compared with the model's tf_table (Model/C02_tf.v) entry by entry: index sequence, name, tagged,
+// options, in table order.  Predicate on the implementation alone: every index sequence leads (reflect FieldByIndex)
+// to a field of the entry's name, no name twice, and cap(index) == len(index) (an index sequence owns its storage).
+var tfNames = []string{"A", "B", "C", "X", "Y"}
+
+func tfOwnFields(r *hx.Rng, n int) []reflect.StructField {
+	perm := []int{0, 1, 2, 3, 4}
+	for i := len(perm) - 1; i > 0; i-- {
+		j := r.Intn(i + 1)
+		perm[i], perm[j] = perm[j], perm[i]
+	}
+	types := []reflect.Type{reflect.TypeOf(int8(0)), reflect.TypeOf(int32(0)), reflect.TypeOf(""), reflect.TypeOf([]int32(nil))}
+	var fs []reflect.StructField
+	for i := 0; i < n && i < len(perm); i++ {
+		sf := reflect.StructField{Name: tfNames[perm[i]], Type: types[r.Intn(len(types))]}
+		other := tfNames[r.Intn(len(tfNames))]
+		switch r.Intn(9) {
+		case 0:
+			sf.Tag = reflect.StructTag(`nbt:"` + other + `"`)
+		case 1:
+			sf.Tag = reflect.StructTag(`nbt:"` + sf.Name + `"`)
+		case 2:
+			sf.Tag = `nbt:",omitempty"`
+		case 3:
+			sf.Tag = `nbt:"-"`
+		case 4:
+			sf.Tag = reflect.StructTag(`nbtkey:"` + other + `"`)
+		case 5:
+			sf.Tag = reflect.StructTag(`nbt:"` + other + `,list,omitempty"`)
+		}
+		fs = append(fs, sf)
+	}
+	return fs
+}
+
+// tfRoot: a struct type of embedding depth `depth`
+func tfRoot(r *hx.Rng, depth int) reflect.Type {
+	pool := make([][]reflect.Type, depth+1)
+	for lvl := 0; lvl <= depth; lvl++ {
+		width := 2 + r.Intn(2)
+		if lvl == depth {
+			width = 1
+		}
+		for w := 0; w < width; w++ {
+			var fs []reflect.StructField
+			if lvl == 0 {
+				fs = tfOwnFields(r, 2+r.Intn(2))
+			} else {
+				own := tfOwnFields(r, r.Intn(3))
+				nEmb := 1 + r.Intn(3)
+				var embs []reflect.StructField
+				for e := 0; e < nEmb; e++ {
+					from := lvl - 1
+					if e > 0 && r.Intn(3) == 0 {
+						from = r.Intn(lvl)
+					}
+					t := pool[from][r.Intn(len(pool[from]))]
+					if r.Intn(3) == 0 {
+						t = reflect.PointerTo(t)
+					}
+					embs = append(embs, reflect.StructField{Name: fmt.Sprintf("E%d", e), Type: t, Anonymous: true})
+				}
+				// embedded fields before, between and after the ordinary ones
+				cut := r.Intn(len(own) + 1)
+				fs = append(fs, own[:cut]...)
+				fs = append(fs, embs...)
+				fs = append(fs, own[cut:]...)
+			}
+			pool[lvl] = append(pool[lvl], reflect.StructOf(fs))
+		}
+	}
+	return pool[depth][0]
+}
+
+func sdeclTokens(sb *strings.Builder, rt reflect.Type, ids map[reflect.Type]int) {
+	for i := 0; i < rt.NumField(); i++ {
+		sf := rt.Field(i)
+		st := sf.Type
+		isPtr := st.Kind() == reflect.Pointer
+		if isPtr {
+			st = st.Elem()
+		}
+		nameTag := strings.Split(sf.Tag.Get("nbt"), ",")[0] != "" || sf.Tag.Get("nbtkey") != ""
+		if sf.Anonymous && st.Kind() == reflect.Struct && !nameTag && sf.Tag.Get("nbt") != "-" {
+			id, ok := ids[st]
+			if !ok {
+				id = len(ids)
+				ids[st] = id
+			}
+			p := "v"
+			if isPtr {
+				p = "p"
+			}
+			fmt.Fprintf(sb, " SE %s %d %d", p, id, st.NumField())
+			sdeclTokens(sb, st, ids)
+			continue
+		}
+		f, tagged := fldOf(sf)
+		declTokens(sb, []Decl{{F: f, Tagged: tagged}})
+	}
+}
+
+func embDepth(rt reflect.Type) (depth, innermost int) {
+	innermost = 0
+	for i := 0; i < rt.NumField(); i++ {
+		sf := rt.Field(i)
+		st := sf.Type
+		if st.Kind() == reflect.Pointer {
+			st = st.Elem()
+		}
+		if sf.Anonymous && st.Kind() == reflect.Struct && sf.Tag == "" {
+			d, in := embDepth(st)
+			if d+1 > depth {
+				depth, innermost = d+1, in
+			}
+		}
+	}
+	if depth == 0 {
+		innermost = rt.NumField()
+	}
+	return
+}
+
+func typeFieldsCase(o *hx.Out, cat string, rt reflect.Type) {
+	idx++
+	ids := map[reflect.Type]int{rt: 0}
+	var dtok strings.Builder
+	fmt.Fprintf(&dtok, " DL %d", rt.NumField())
+	sdeclTokens(&dtok, rt, ids)
+	caseLine := fmt.Sprintf("T %d 0%s", idx, dtok.String())
+	var table []nbt.VerifFieldC02
+	if pan := hx.Try(func() { table = nbt.VerifTypeFieldsC02(rt) }); pan != "" {
+		o.Case(cat, true, caseLine, fmt.Sprintf("T %d panic", idx))
+		o.Fail("C02.typefields.panic", "type=%s panic=%s", clip(rt.String()), pan)
+		return
+	}
+	var sb strings.Builder
+	fmt.Fprintf(&sb, "T %d %d", idx, len(table))
+	seen := map[string]bool{}
+	for _, f := range table {
+		parts := make([]string, len(f.Index))
+		for i, x := range f.Index {
+			parts[i] = strconv.Itoa(x)
+		}
+		fl := ""
+		if f.Tagged {
+			fl += "t"
+		}
+		if f.OmitEmpty {
+			fl += "o"
+		}
+		if f.AsList {
+			fl += "l"
+		}
+		if fl == "" {
+			fl = "-"
+		}
+		fmt.Fprintf(&sb, " %s:%s:%s", strings.Join(parts, "."), hx.Hex([]byte(f.Name)), fl)
+		// predicate: the index sequence is the sequence of embedding indices followed by the field's own index
+		cur, ok := rt, true
+		var last reflect.StructField
+		for k, x := range f.Index {
+			if cur.Kind() == reflect.Pointer {
+				cur = cur.Elem()
+			}
+			if cur.Kind() != reflect.Struct || x < 0 || x >= cur.NumField() {
+				ok = false
+				break
+			}
+			last = cur.Field(x)
+			if k < len(f.Index)-1 && !last.Anonymous {
+				ok = false
+				break
+			}
+			cur = last.Type
+		}
+		if ok {
+			fl2, _ := fldOf(last)
+			ok = fl2.Name == f.Name && !fl2.Skip
+		}
+		if !ok {
+			o.Fail("C02.typefields.index", "type=%s entry=%s index=%v", clip(rt.String()), f.Name, f.Index)
+		}
+		if f.IndexCap != len(f.Index) {
+			o.Fail("C02.typefields.index-shared", "type=%s entry=%s index=%v cap=%d", clip(rt.String()), f.Name, f.Index, f.IndexCap)
+		}
+		if seen[f.Name] {
+			o.Fail("C02.typefields.name-twice", "type=%s entry=%s", clip(rt.String()), f.Name)
+		}
+		seen[f.Name] = true
+	}
+	o.Case(cat, true, caseLine, sb.String())
+}
+
+func typeFieldsModel(o *hx.Out) {
+	r := o.R
+	for _, root := range []any{R1{}, RTie{}, RTag{}, R2{}, R3{}, R4{}, R4P{}} {
+		typeFieldsCase(o, "typefields.fixed", reflect.TypeOf(root))
+	}
+	for i := 0; i < o.N(400, 10); i++ {
+		depth := 3 + r.Intn(2)
+		if i%8 == 0 {
+			depth = 1 + r.Intn(2)
+		}
+		rt := tfRoot(r, depth)
+		d, in := embDepth(rt)
+		cat := fmt.Sprintf("typefields.depth%d", d)
+		if d >= 3 && in >= 2 {
+			cat = "typefields.deep"
+		}
+		typeFieldsCase(o, cat, rt)
+	}
+}
+
 // ---------------------------------------------------------------- main
 
 func main() {
@@ -2294,6 +2512,7 @@ func main() {
 	embedded(o)
 	dynValueField(o)
 	embeddedModel(o)
+	typeFieldsModel(o)
 }
 
 // f32bits: the bits of a float32-kinded value as stored (reflect.Value.Float goes through float64 and quiets
